@@ -21,7 +21,7 @@ GROUP_NAME = {1: 'ecp256', 2: 'ecp384'}
 GROUP_ID = {1: 19, 2: 20}
 GROUP_ABS = {19: 1, 20: 2}
 
-BASE = dict(MaxTrig=2, MaxDup=1, MaxLoss=0, Triggers=('acquire', 'soft', 'hard', 'rekeyike', 'delike', 'dpd'),
+BASE = dict(MaxTrig=2, MaxDup=1, MaxLoss=0, MaxAdv=0, Triggers=('acquire', 'soft', 'hard', 'rekeyike', 'delike', 'dpd'),
             IkeDh='DhSame', ChildDh='DhNone', CookieThreshold=10, StartEstablished=True, MaxSpi=12,
             AsPinned_C16=False, KnownToBothOnly=False, FreeRetx=False)
 
@@ -36,6 +36,9 @@ SCENARIOS = {
     'estab3_c09': dict(BASE, MaxTrig=3, MaxDup=1, KnownToBothOnly=True),
     'live':       dict(BASE, MaxTrig=1, MaxDup=0, MaxLoss=1, KnownToBothOnly=True, FreeRetx=True),
     'live2':      dict(BASE, MaxTrig=2, MaxDup=0, MaxLoss=0, KnownToBothOnly=True, FreeRetx=True),
+    'adv':        dict(BASE, MaxTrig=1, MaxDup=0, MaxAdv=1),
+    'adv_init':   dict(BASE, StartEstablished=False, MaxTrig=1, MaxDup=0, MaxAdv=1, Triggers=('acquire',)),
+    'adv2':       dict(BASE, MaxTrig=2, MaxDup=0, MaxAdv=1, Triggers=('soft', 'hard', 'rekeyike', 'delike', 'dpd')),
     # from empty tables
     'init':       dict(BASE, StartEstablished=False, MaxTrig=2, Triggers=('acquire', 'hard', 'dpd')),
     'init_ke':    dict(BASE, StartEstablished=False, MaxTrig=2, IkeDh='DhMismatch', Triggers=('acquire',)),
@@ -79,7 +82,7 @@ def cfg_text(sc, spec='Spec', invariants=(), properties=(), action_constraint=No
 
 ALL_INVARIANTS = ('NoDupTable', 'ListedAreKnown', 'HeldAreListed', 'NoDeletedListed', 'KernelMatches', 'OneOutstanding',
                   'HeaderOk', 'SameIkeKeys', 'Mirror')
-ALL_PROPERTIES = ('MidMonotonic', 'ReplayIsFree', 'CookieFirst')
+ALL_PROPERTIES = ('MidMonotonic', 'ReplayIsFree', 'CookieFirst', 'ForgeryHarmless')
 
 
 def model_check(scname, sc=None, invariants=ALL_INVARIANTS, properties=ALL_PROPERTIES, workers=None, timeout=1500,
